@@ -49,6 +49,30 @@ pub fn write_type_line(buffer: &mut String, name: &str, metric_type: &str) {
     buffer.push('\n');
 }
 
+/// Returns the name of the metric family for the given metric name and unit.
+///
+/// This is the name that the `# HELP` and `# TYPE` lines of the family must carry so that they match the sample lines
+/// written by [`write_metric_line`] for the same name and unit.
+pub fn metric_family_name(name: &str, unit: Option<Unit>) -> String {
+    let mut family_name = name.to_owned();
+    write_unit_suffix(&mut family_name, unit);
+    family_name
+}
+
+fn write_unit_suffix(buffer: &mut String, unit: Option<Unit>) {
+    match unit {
+        Some(Unit::Count) | None => {}
+        Some(Unit::Percent) => {
+            buffer.push('_');
+            buffer.push_str("ratio");
+        }
+        Some(unit) => {
+            buffer.push('_');
+            buffer.push_str(unit.as_str());
+        }
+    }
+}
+
 /// Writes a metric in the Prometheus [exposition format].
 ///
 /// When `suffix` is specified, it is appended to the `name`, which is useful for writing summary
@@ -70,21 +94,14 @@ pub fn write_metric_line<T, T2>(
     T2: std::fmt::Display,
 {
     buffer.push_str(name);
+
+    // The unit suffix is part of the metric family name, so it goes before any sample suffix such as `_bucket`,
+    // `_sum` or `_count`.
+    write_unit_suffix(buffer, unit);
+
     if let Some(suffix) = suffix {
         buffer.push('_');
         buffer.push_str(suffix);
-    }
-
-    match unit {
-        Some(Unit::Count) | None => {}
-        Some(Unit::Percent) => {
-            buffer.push('_');
-            buffer.push_str("ratio");
-        }
-        Some(unit) => {
-            buffer.push('_');
-            buffer.push_str(unit.as_str());
-        }
     }
 
     if !labels.is_empty() || additional_label.is_some() {
